@@ -19,6 +19,10 @@ HEADER = """#![feature(allocator_api)]
 use dryoc::protected::*;
 use dryoc::types::*;
 use dryoc::dryocstream::*;
+fn g_bytes<B: Bytes>(b: &B) -> usize { b.as_slice().len() }
+fn g_mutbytes<B: MutBytes>(b: &mut B) { b.as_mut_slice()[0] = 1; }
+fn g_bytearray<B: ByteArray<32>>(b: &B) -> u8 { b.as_array()[0] }
+fn g_mutbytearray<B: MutByteArray<32>>(b: &mut B) { b.as_mut_array()[0] = 1; }
 fn main() {
     let src = [7u8; 32];
 """
@@ -58,6 +62,9 @@ OPS = {
     "index": "let v = r[0];",
     "index_assign": "r[0] = 1;",
     "resize": "r.resize(64, 0);",
+    "resize_shrink": "r.resize(8, 0); let v = r.as_slice()[7];",
+    "resize_to_zero": "r.resize(0, 0);",
+    "resize_grow_then_shrink": "r.resize(5000, 1); r.resize(4096, 0); r.resize(31, 0); let v = r.as_slice()[30];",
     "clone": "let c = r.clone();",
     "lock": "let t = r.mlock();",
     "unlock": "let t = r.munlock();",
@@ -78,13 +85,13 @@ def expectation(container, state, op):
     arr = container != "HeapBytes"
     if op in ("array_view(as_array)", "mutable_array_view(as_mut_array)") and not arr:
         return "n/a", None
-    if op == "resize" and arr:
+    if op.startswith("resize") and arr:
         return "n/a", None
     if op in ("read_view(as_slice)", "index", "array_view(as_array)"):
         return ("allowed", None) if pm in ("Rw", "Ro") else ("forbidden", "named")
     if op in ("mutable_view(as_mut_slice)", "index_assign", "mutable_array_view(as_mut_array)"):
         return ("allowed", None) if pm == "Rw" else ("forbidden", "named")
-    if op == "resize":
+    if op.startswith("resize"):
         return ("allowed", None) if pm == "Rw" else ("forbidden", "model")
     if op == "clone":
         if pm == "Na":
@@ -101,6 +108,34 @@ def expectation(container, state, op):
     if op == "use_after_transition":
         return "forbidden", "named"
     raise KeyError(op)
+
+# further routes to the bytes: every trait / auto-deref path through which safe code can obtain a view. Where the state
+# permits the access the route is *optional* (not every route is offered for every container: a route that does not
+# compile there is recorded as not offered); where the state forbids it, the program must not compile.
+ROUTES = {
+    # name: (statement, "read" | "write", needs fixed-length container)
+    "read:Deref": ("let v: &[u8] = &*r; let n = v.len();", "read", False),
+    "read:AsRef<[u8]>": ("let v: &[u8] = r.as_ref(); let n = v.len();", "read", False),
+    "read:AsRef<[u8;N]>": ("let v: &[u8; 32] = r.as_ref(); let n = v[0];", "read", True),
+    "read:slice_method(iter)": ("let n = r.iter().count();", "read", False),
+    "read:slice_method(to_vec)": ("let v = r.to_vec();", "read", False),
+    "read:slice_method(first)": ("let v = r.first().copied();", "read", False),
+    "read:range_index": ("let v = r[..1].len();", "read", False),
+    "read:generic Bytes": ("let n = g_bytes(&r);", "read", False),
+    "read:generic ByteArray": ("let n = g_bytearray(&r);", "read", True),
+    "read:PartialEq": ("let same = r == r;", "read", False),
+    "read:Debug": ("let d = format!(\"{:?}\", r);", "read", False),
+    "write:DerefMut": ("let v: &mut [u8] = &mut *r; v[0] = 1;", "write", False),
+    "write:AsMut<[u8]>": ("let v: &mut [u8] = r.as_mut(); v[0] = 1;", "write", False),
+    "write:AsMut<[u8;N]>": ("let v: &mut [u8; 32] = r.as_mut(); v[0] = 1;", "write", True),
+    "write:slice_method(iter_mut)": ("for b in r.iter_mut() { *b = 1; }", "write", False),
+    "write:slice_method(fill)": ("r.fill(1);", "write", False),
+    "write:slice_method(swap)": ("r.swap(0, 1);", "write", False),
+    "write:copy_from_slice": ("r.copy_from_slice(&src);", "write", False),
+    "write:range_index": ("r[..1][0] = 1;", "write", False),
+    "write:generic MutBytes": ("g_mutbytes(&mut r);", "write", False),
+    "write:generic MutByteArray": ("g_mutbytearray(&mut r);", "write", True),
+}
 
 
 def programs():
@@ -122,6 +157,18 @@ def programs():
                     progs.append(dict(cell=cell, kind="misuse", grade=grade, line=line, runnable=runnable, src=body + "    " + stmt + " // MISUSE\n" + FOOTER))
                     ctl = USE_AFTER_CONTROL if op == "use_after_transition" else CONTROL_STMT
                     progs.append(dict(cell=cell, kind="control_of_misuse", grade=None, line=line, runnable=runnable, src=body + "    " + ctl + "\n" + FOOTER))
+            for route, (stmt, rw, needs_arr) in ROUTES.items():
+                if needs_arr and container == "HeapBytes":
+                    continue
+                pm = state[:2]
+                allowed = pm in ("Rw", "Ro") if rw == "read" else pm == "Rw"
+                cell = "%s|%s|%s" % (container, STATE_NAME[state], route)
+                body = HEADER + prefix
+                line = body.count("\n") + 1
+                if allowed:
+                    progs.append(dict(cell=cell, kind="optional_control", grade=None, line=line, runnable=runnable, src=body + "    " + stmt + "\n" + FOOTER))
+                else:
+                    progs.append(dict(cell=cell, kind="misuse", grade="named", line=line, runnable=runnable, src=body + "    " + stmt + " // MISUSE\n" + FOOTER))
     # streams
     sp = HEADER + "    let key = Key::gen();\n    let (mut push, header): (DryocStream<Push>, Header) = DryocStream::init_push(&key);\n    let mut pull = DryocStream::init_pull(&key, &header);\n    let c: Vec<u8> = push.push_to_vec(b\"hello\", None, Tag::MESSAGE).unwrap();\n"
     line = sp.count("\n") + 1
@@ -215,7 +262,15 @@ def run(ctx):
         dim[pr["cell"]] = dim.get(pr["cell"], 0) + 1
         case = dict(cell=pr["cell"], kind=pr["kind"], grade=pr["grade"], compiles=r["compiles"], error_codes=r["codes"], first_error=r["first_error"], run=r["run"],
                     program=pr["src"])
-        if pr["kind"] in ("control", "control_of_misuse"):
+        if pr["kind"] == "optional_control":
+            route = pr["cell"].split("|")[-1]
+            if not r["compiles"]:
+                m.cov.setdefault("route_not_offered", {})[pr["cell"]] = 1
+            elif pr["runnable"] and r["run"] != 0:
+                m.add_viol("C20|permitted_program_faults_at_run_time|%s" % route, 1, case, meta)
+            else:
+                m.cov.setdefault("route_offered_and_runs", {})[pr["cell"]] = 1
+        elif pr["kind"] in ("control", "control_of_misuse"):
             if not r["compiles"]:
                 m.add_viol("C20|permitted_program_rejected_by_compiler|%s" % pr["cell"].split("|")[-1], 1, case, meta)
             elif pr["runnable"] and r["run"] != 0:
